@@ -90,6 +90,12 @@ func cmdWorker(args []string) int {
 		for {
 			time.Sleep(100 * time.Millisecond)
 			runtime.ReadMemStats(&ms)
+			if ms.HeapAlloc > limit && ms.HeapAlloc < 4*limit {
+				// what counts is memory that is HELD: garbage that the collector has not got round to yet (a busy machine, a
+				// workload that allocates quickly) is not a call that allocates without bound. Collect, and look again
+				runtime.GC()
+				runtime.ReadMemStats(&ms)
+			}
 			if ms.HeapAlloc > limit {
 				fmt.Fprintf(os.Stderr, "panic: vmon memory guard: heap of %d MiB in worker %s shard %d (a call allocates without bound)\n", ms.HeapAlloc>>20, p.ID, shard)
 				os.Exit(2)
